@@ -211,6 +211,33 @@ def run(ctx, prop):
                     disagree.append({"case": {"id": case["id"], "method": idl.render_member(m).strip(), "call": call}, "difference": d_})
                 if len(samples) < 4 and a["env"] and len(m["params"]) >= 3:
                     samples.append({"call": call, "method": idl.render_member(m).strip(), "envelope": a["env"], "impl": a["impl"], "ret": a["ret"]})
+    if prop == "C05":
+        # in-process calls: the skeleton sees the caller's own argument array, including what the
+        # output object slots held on entry (a re-used proxy's object, garbage if a stub left the
+        # slot uninitialised); implementations fill output slots with the usual replace idiom
+        os.environ["BENCH_KEEP_OO"] = "1"
+        try:
+            rest_, _p = split_padded(gen.coverage_case("C05-inprocess"))
+            with C.Scratch() as tmp:
+                b_, r_, _u = B.build_and_run(ctx, rest_, os.path.join(tmp, "w"), langs=("c", "cpp", "rust"), valuations=3, sanitize=(ctx.tier == "thorough"))
+                ctx.bump("evaluations")
+                if b_["ok"] and r_ is not None:
+                    if r_["rc"] != 0 or not any(x.get("ev") == "end" for x in r_["records"]):
+                        lc_ = r_.get("last_call") or {}
+                        mo_ = B.method_of(rest_, lc_.get("iface"), lc_.get("method")) if lc_ else None
+                        if not (mo_ and (method_classes(rest_, mo_[1]) & set(KNOWN[prop].values()))):
+                            oracle_fail.append({"case": {"id": rest_["id"], "mode": "in-process (output slots keep their initial content)", "last_call": lc_},
+                                                "failures": [{"error": "crash of a well-formed in-process call", "rc": r_["rc"], "stderr": r_.get("stderr", "")[-300:]}]})
+                    for a_ in B.analyse(ctx, rest_, b_, r_):
+                        owner_, m_, _op = B.method_of(rest_, a_["call"]["iface"], a_["call"]["method"])
+                        if method_classes(rest_, m_) & set(KNOWN[prop].values()):
+                            continue
+                        hist["inprocess_calls"] = hist.get("inprocess_calls", 0) + 1
+                        for f_ in B.refcount_failures(a_):
+                            oracle_fail.append({"case": {"id": rest_["id"], "mode": "in-process (output slots keep their initial content)",
+                                                         "method": idl.render_member(m_).strip(), "call": a_["call"]}, "failures": [f_]})
+        finally:
+            os.environ.pop("BENCH_KEEP_OO", None)
     if prop == "C03":
         # the bytes a skeleton ACCEPTS: fixed-size slots (bundles in particular) at exactly the
         # prescribed size and no other, for every skeleton backend
